@@ -13,7 +13,7 @@
 (* the property: reading the tree in order reproduces exactly the consumed *)
 (* input.                                                                  *)
 (***************************************************************************)
-EXTENDS Fam
+EXTENDS Fam, PegVM
 
 CONSTANTS Tier
 
@@ -117,4 +117,16 @@ LawExtends ==
     \A k \in 1..Len(Texts) :
         LET r == EvalEntry(G, "E", Texts[k], 0) IN
         r.t = "ok" => r.e >= 1
+
+(* ---- mechanism layer: the shunting-yard machine (PegVM!OTLoop) computes the Pratt-style meaning ---- *)
+VMTexts == IF Len(rows) = 3 THEN TextsShort
+           ELSE IF Tier = "quick" THEN SelectSeq(Texts, LAMBDA t : Len(t) <= 4 \/ t[1] = lpar \/ Len(t) >= 6) ELSE Texts
+LawVMRefines ==
+    done => \A k \in 1..Len(VMTexts) :
+               /\ Refines(G, Ref("start"), VMTexts[k])
+               /\ Refines(G, Ref("E"), VMTexts[k])
+LawVMFlags ==
+    done => \A k \in 1..Len(VMTexts) : FlagSound(G, Table(rows, opk), VMTexts[k])
+LawVMNoBadState ==
+    done => \A k \in 1..Len(VMTexts) : NoBadState(G, Table(rows, opk), VMTexts[k])
 =============================================================================
